@@ -406,7 +406,10 @@ def sql_rows_check(sd, n):
         for case in range(n):
             path = sc.new('.db')
             a = ar.sqltable_archive('sqlite:///%s?table=memo' % path, cached=False)
+            sqllog = []
+            a._conn.set_trace_callback(sqllog.append)
             lines, got = ['d.mode sql', 'd.reset'], ['ok', 'ok']
+            stmts = [None, None]
             for _ in range(rng.randint(5, 25)):
                 k, v = rng.randint(0, 5), rng.randint(10, 99)
                 kind = rng.choice(['set', 'set', 'get', 'del', 'contains', 'len', 'getd', 'pop', 'popd', 'popkeys', 'popkeysd', 'setdefault', 'update', 'clear', 'items'])
@@ -444,6 +447,8 @@ def sql_rows_check(sd, n):
                         lines.append('d.items'); got.append('items*' + ' '.join(sorted('%d:%d' % p for p in a.items())))
                 except KeyError:
                     got.append('keyerror')
+                stmts.append(_sql_statements(sqllog))
+                del sqllog[:]
                 # the rows, as another connection sees them
                 con = sqlite3.connect(path)
                 try:
@@ -451,10 +456,20 @@ def sql_rows_check(sd, n):
                 finally:
                     con.close()
                 lines.append('d.rows'); got.append(('rows ' + ' '.join('%d:%d' % (r[0], r[1]) for r in rows)).strip())
+                stmts.append(None)
             out = run_model(lines)
             nops += len(lines)
-            for ln, o, g in zip(lines, out, got):
+            for ln, o, g, st in zip(lines, out, got, stmts):
                 o = o.strip()
+                if st is not None:
+                    # the model prints "result | statements": the real statements, each in its own transaction
+                    o, _, mst = o.partition(' |')
+                    o = o.strip()
+                    if ln == 'd.clear':      # clear() pops the keys in set order: the order of the deletions is immaterial
+                        mst, st = ' ; '.join(sorted(mst.strip().split(' ; '))), ' ; '.join(sorted(st.split(' ; ')))
+                    if mst.strip() != st:
+                        bad.append((ln, 'statements: ' + mst.strip(), 'statements: ' + st))
+                        break
                 if g.startswith('items*'):
                     o = 'items*' + ' '.join(sorted(o.split()[1:]))
                 if o != g.strip():
@@ -551,6 +566,36 @@ def dir_entries_check(sd, n):
     finally:
         sc.close()
     return bad, nops
+
+
+def _sql_statements(log):
+    """the data-changing statements of a sqlite trace, as the model prints them; every one must sit in
+    its own BEGIN ... COMMIT (one commit per statement is what the crash theorem of C13 relies on)"""
+    import re
+    out = []
+    open_tx = 0
+    for ln in log:
+        t = ln.strip().lower()
+        if t.startswith('begin'):
+            open_tx += 1
+            n_in_tx = 0
+        elif t.startswith('commit'):
+            open_tx -= 1
+        elif t.startswith('insert'):
+            m = re.search(r'values\((-?\d+),(-?\d+)\)', t)
+            out.append('ins %s %s' % (m.group(1), m.group(2)) if m else 'ins ?')
+            n_in_tx += 1
+            if n_in_tx > 1:
+                out.append('(same transaction)')
+        elif t.startswith('delete'):
+            m = re.search(r'=\s*(-?\d+)', t)
+            out.append('del %s' % m.group(1) if m else 'del ?')
+            n_in_tx += 1
+            if n_in_tx > 1:
+                out.append('(same transaction)')
+    if open_tx:
+        out.append('(uncommitted)')
+    return ' ; '.join(out)
 
 
 def _worker(args):
